@@ -14,7 +14,8 @@ EXPLANATION = ("TaskGroup.start(): a cancelled/failed wait for readiness cancels
                "before re-raising; the start value is returned only after the readiness future completed; started() sets the future once "
                "(second call is an error unless the starter was cancelled) and re-parents afterwards; the done-callback routes the child's "
                "outcome to the future or to the group, exactly once; the future is plumbed to status object, spawn and wait."
-               " start() never cancels the child and then leaves without waiting (a status test made after handle.cancel() cannot stand for 'finished').")
+               " start() never cancels the child and then leaves without waiting (a status test made after handle.cancel() cannot stand for 'finished')."
+               " The delivery loop keeps itself alive for a member that already has a cancellation on its way.")
 NOT_DECIDED = "Timing of the child's steps relative to cancellations (schedules); behaviour of user coroutines."
 
 
